@@ -266,7 +266,13 @@ impl Prop for C01 {
         tier.pick(90, 1200)
     }
     fn run_case(&self, case: u64, rng: &mut Rng, st: &mut Stats, tier: Tier) {
-        let cfg = GenCfg::random(rng, tier.pick(400, 400));
+        let mut cfg = GenCfg::random(rng, tier.pick(400, 400));
+        if rng.chance(0.01) {
+            // hundreds of values live at once: budgets up to 255 spill, too
+            cfg = GenCfg::wide_sweep(rng);
+            cfg.profile = prog::Profile::Uniform;
+            st.inc("width_sweep_programs");
+        }
         let p = prog::generate(rng, &cfg);
         let b = p.build();
         let roots = p.roots(&b);
